@@ -300,6 +300,19 @@ class ReadReports:
         return True
 
 
+class PermGate:
+    """a user algo that keeps its state where the library tells algos to keep it - in `target.perm`: lets the stack through on
+    every k-th call"""
+
+    def __init__(self, k):
+        self.k = k
+
+    def __call__(self, target):
+        n = target.perm.get("verif_calls", 0)
+        target.perm["verif_calls"] = n + 1
+        return n % self.k == 0
+
+
 class SetCash:
     def __init__(self, c):
         self.c = c
@@ -375,6 +388,8 @@ def mk_algo(bt, d, tickers, dates, data, perturb=None):
         return a.RunOnDate(*d[1:])
     if n == "CapitalFlow":
         return a.CapitalFlow(d[1])
+    if n == "PermGate":
+        return PermGate(d[1])
     if n == "ReadReports":
         return ReadReports(d[1])
     if n == "QuietOps":
